@@ -11,6 +11,8 @@ for f in os.listdir(src):
 mp = os.path.join(dst, "meta.json")
 meta = json.load(open(mp)) if os.path.exists(mp) else {}
 meta["property"] = prop
+if os.environ.get("SEED_ORIGIN"):
+    meta["origin"] = os.environ["SEED_ORIGIN"]
 meta["confirmed_by_coordinator"] = {
     "ran": "tools/try_seed.sh %s <dir> (scratch worktree: git apply patch.diff; cmake+ctest 31 tests; run.sh on changed and unchanged tree; tools/check.py %s with VERIF_REPO=<changed tree>)" % (prop, prop),
     "outcome": summary}
